@@ -288,10 +288,11 @@ where
     for (h0, t0) in points {
         let (h0, t0) = (if R::FORMAL.0 { h0 } else { h }, if R::FORMAL.1 { t0 } else { t });
         if reduced && t0 != 0 { continue; }
-        let r = reference(&pd, h0, t0, reduced, <R::B as Base>::MODULUS);
-        if r.orientation_ambiguous { continue; }
+        let refs = crate::khcommon::references(&pd, h0, t0, reduced, <R::B as Base>::MODULUS);
         let got = homology_at(&s, h0, t0);
         rep.counters.insert("specialisations_compared".into(), rep.counters.get("specialisations_compared").copied().unwrap_or(0) + 1);
+        if refs.iter().any(|r| r.graded == got) { continue; }
+        let r = &refs[0];
         if got != r.graded {
             rep.violation = Some(Violation::new("specialisation-differs-from-cube", format!("complex over {} evaluated at (h,t)=({h0},{t0}): {} ; cube of resolutions: {}", R::NAME, describe_graded(&got), describe_graded(&r.graded))));
             return rep;
